@@ -181,6 +181,30 @@ func instr(in ssa.Instruction) J {
 		}
 		cj["argtypes"] = at
 		j["call"] = cj
+	case *ssa.Defer:
+		j["op"] = "Defer"
+		c := x.Call
+		cj := J{"args": vals(c.Args)}
+		if c.IsInvoke() {
+			cj["mode"] = "invoke"
+			cj["method"] = c.Method.Name()
+			cj["recv"] = val(c.Value)
+		} else {
+			switch f := c.Value.(type) {
+			case *ssa.Function:
+				cj["mode"] = "static"
+				cj["fn"] = f.String()
+			case *ssa.Builtin:
+				cj["mode"] = "builtin"
+				cj["fn"] = f.Name()
+			default:
+				cj["mode"] = "dynamic"
+				cj["fnval"] = val(c.Value)
+			}
+		}
+		j["call"] = cj
+	case *ssa.RunDefers:
+		j["op"] = "RunDefers"
 	case *ssa.ChangeType:
 		j["op"] = "ChangeType"
 		j["x"] = val(x.X)
